@@ -153,6 +153,11 @@ pub fn build_cases(cfg: &Cfg) -> Vec<Case> {
         cases.push(Case { name: format!("Z{} = <a,b | a^{}, b>", n, n), pres: Pres { ngens: 2, rels: vec![pw(1, n), vec![2]] }, k: n.min(cfg.tier.pick(6, 8)) });
         cases.push(Case { name: format!("Z{} = <a,b,c | a, b^{}, c>", n, n), pres: Pres { ngens: 3, rels: vec![vec![1], pw(2, n), vec![3]] }, k: n.min(5) });
     }
+    // random presentations
+    for (k, p) in groupcorpus::random_presentations(cfg.seed, cfg.tier.pick(400, 4000)).into_iter().enumerate() {
+        let kk = if p.ngens == 2 { cfg.tier.pick(4, 5) } else { 3 };
+        cases.push(Case { name: format!("random presentation #{}", k), pres: p, k: kk });
+    }
     // Z^4
     let mut z4 = vec![];
     for a in 1..=4i64 {
